@@ -28,6 +28,8 @@ def domains(draw, n):
     # the unit of the domain is arbitrary (nm, um, m, seconds...): absolute scales from 1e-9 to 1e3
     unit = draw(st.sampled_from([1.0, 1.0, 1.0, 1e-3, 1e-6, 1e-9, 1e3]))
     if kind == "step":
+        if draw(st.integers(0, 4)) == 0:
+            return draw(st.sampled_from([1, 2, 3, 5, 10]))     # an integer-typed step (e.g. domain=1) is as legitimate as 1.0
         return unit * draw(st.one_of(st.sampled_from([1.0, 0.5, 2.0, 5.0]), gens.log_uniform(1e-3, 1e2)))
     return [unit * v for v in draw(gens.ascending_domain(n, uniform=(kind == "uniform")))]
 
@@ -119,7 +121,9 @@ def _labels(case):
 
 
 def _dom_arg(dom):
-    return np.asarray(dom, dtype=float) if isinstance(dom, list) else float(dom)
+    if isinstance(dom, list):
+        return np.asarray(dom, dtype=float)
+    return dom if (isinstance(dom, int) and not isinstance(dom, bool)) else float(dom)
 
 
 def _close(got, exp, scale, rel, label, what):
@@ -218,7 +222,7 @@ def body_linearity(case):
 @st.composite
 def step_case(draw):
     c = draw(capture_case(allow_1d=True, max_batch=1))
-    c["domain"] = draw(st.one_of(st.sampled_from([1.0, 0.5, 2.0, 5.0, 0.1]), gens.log_uniform(1e-3, 1e2)))
+    c["domain"] = draw(st.one_of(st.sampled_from([1.0, 0.5, 2.0, 5.0, 0.1]), st.sampled_from([1, 3, 5]), gens.log_uniform(1e-3, 1e2)))
     c["trapz"] = True
     return c
 
@@ -226,7 +230,7 @@ def step_case(draw):
 def body_step(case):
     dreye = _dreye()
     F, S = np.asarray(case["filters"], dtype=float), np.asarray(case["signals"], dtype=float)
-    dx = float(case["domain"])
+    dx = _dom_arg(case["domain"])
     nd = F.shape[-1]
     with calling("calculate_capture"):
         a = np.asarray(dreye.calculate_capture(F, S, domain=dx))
